@@ -164,10 +164,16 @@ def write_replay(pid, modname, v):
 
 
 def run_check(pid, tier, seed, jobs):
+    # NB: the parent never installs the virtual clock nor imports puresnmp
+    # (multiprocessing's own time-outs need the real clock): shards() must not
+    # touch the library
     modname = "vmc.checks.%s" % pid.lower()
     mod = importlib.import_module(modname)
     t0 = REAL_TIME()
     shards = list(mod.shards(tier))
+    if "puresnmp" in sys.modules:
+        print("HARNESS-ERROR property=%s shards() imported puresnmp in the parent process" % pid, file=sys.stderr)
+        return 2
     order = list(range(len(shards)))
     random.Random(seed).shuffle(order)
     results = [None] * len(shards)
